@@ -23,6 +23,9 @@ Tol == [ closed   |-> [sl |-> 5,     bal |-> 100,     jump |-> 200,     int |-> 
          table    |-> [sl |-> 2000,  bal |-> 2000000, jump |-> 2000000, int |-> 2000000],
          (* Sedov observed on its own exact nodes: differences on the node spacing (worst 3e-3), *)
          (* node-exact shock states (3e-7), Simpson on 3001 nodes (energy 3e-7, mass 5e-5)       *)
+         (* EHEP: closed forms, but the solver assigns points within ~1e-6 of a region boundary to the first region *)
+         (* it tests (point_on_line tolerance): located fronts carry that fuzz                                    *)
+         ehep     |-> [sl |-> 5,     bal |-> 100,     jump |-> 2000,    int |-> 2000],
          sedov    |-> [sl |-> 20,    bal |-> 3000000, jump |-> 1000,    int |-> 50000] ]
 
 (* ---- equation of state (C03) --------------------------------------- *)
